@@ -96,19 +96,19 @@ Theorem per_sender_order :
 Proof. exact per_sender_order_proof. Qed.
 Print Assumptions per_sender_order.
 
-(* AsyncTLSStreamTransport.send_all under concurrent senders (ideal record layer: a record is its plaintext), every
+(* AsyncTLSStreamTransport.send_all / send_all_from_iterable under concurrent senders (ideal record layer: a record is its plaintext), every
    label sequence incl. cancellation and transport errors: the bytes handed to the underlying transport so far
    (x_calls, one entry per transport.send_all call), followed by what is still pending in the write BIO, are the
    synchronous writes to the SSL object in the order they were made: nothing is reordered, lost or duplicated. *)
 Theorem tls_wire_order :
-  forall (progs : list (list bytes)) (ls : list xlabel) (s : tls), x_run (tls_init progs) ls = Some s ->
+  forall (progs : list (list (list bytes))) (ls : list xlabel) (s : tls), x_run (tls_init progs) ls = Some s ->
     concat (rev (x_calls s)) ++ concat (x_wbio s) = concat (rev (x_writes s)).
 Proof. exact tls_wire_order_proof. Qed.
 Print Assumptions tls_wire_order.
 
 Example tls_example :
-  exists s, x_run (tls_init [[[1%N]; [4%N]]; [[2%N]]; [[3%N]]]) [TStart 0; TStart 1; TStart 2; TWrite 0; TResume 1] = Some s
-            /\ rev (x_calls s) = [[1%N]; [2%N; 3%N; 4%N]] /\ x_wbio s = [].
+  exists s, x_run (tls_init [[[[1%N]; [5%N]]; [[4%N]]]; [[[2%N]]]; [[[3%N]]]]) [TStart 0; TStart 1; TStart 2; TWrite 0; TResume 1] = Some s
+            /\ rev (x_calls s) = [[1%N; 5%N]; [2%N; 3%N; 4%N]] /\ x_wbio s = [].
 Proof. eexists. split; [vm_compute; reflexivity|]. split; reflexivity. Qed.
 
 (* non-vacuity: two senders with the lock, the second one parks, the first completes, the hand-off happens *)
